@@ -259,7 +259,7 @@ def shrink_rewards(sc):
         if c["rewards"]["explicit"] != rw:
             out.append(c)
         c = _c(sc)
-        c["rewards"]["explicit"] = [["f", float(round(engine.untag(tv), 1))] for tv in rw]
+        c["rewards"]["explicit"] = [["f", float(round(float(engine.untag(tv)), 1))] for tv in rw]
         if c["rewards"]["explicit"] != rw:
             out.append(c)
     # delete blocks of rounds (later rewards shift forward)
@@ -337,6 +337,24 @@ class CheckC01(Check):
         # mid-run recommendation queries only where the documentation makes them harmless (C15's list)
         sp = 0.2 if algo in ("T_HOO", "HCT", "VHCT", "Zooming", "POO") else 0.0
         sc = gen.base_scenario(r, seed, algo, n=n, cap_mode=r.choice(["big", "big", "tight"]), sched_prob=sp)
+        if algo in ("DOO", "SOO", "SequOOL", "StoSOO", "T_HOO", "HCT", "Zooming") and r.random() < 0.2:
+            # greedy refinement into a corner of the box: cells shrink to float resolution right at the outer faces
+            sc["rewards"] = {"kind": "edge", "seed": seed, "sign": r.choice([1.0, -1.0]), "types": "f"}
+            if algo in ("DOO", "SOO", "SequOOL"):
+                # deep enough to reach float resolution: ~53 / log2(K) levels in one dimension
+                nn = r.choice([200, 300, 400])
+                sc["params"]["n"] = nn
+                sc["budget"] = nn
+                sc["rounds"] = nn
+                if algo == "SOO":
+                    sc["params"]["h_max"] = nn
+                if r.random() < 0.6:
+                    sc["domain"] = sc["domain"][:1]
+        if algo != "VROOM" and sc["meta"].get("known") is None and r.random() < 0.3:
+            # get_last_point after every round: on the current tree every recommendation call except VROOM's is a read
+            # (or recomputes the same path), so one run of T rounds stands for the runs of every length 1..T
+            # ("the point returned by get_last_point after the loop", for every loop length up to the budget)
+            sc["schedule"] = [{"after": i, "times": 1} for i in range(1, sc["rounds"] + 1)]
         return sc
 
 
@@ -399,6 +417,12 @@ class CheckC03(CheckC02):
         algo = r.choice(["T_HOO", "HCT", "VHCT", "SOO", "StoSOO", "DOO", "SequOOL", "Zooming", "StroquOOL", "POO", "VROOM"])
         pool = gen.PARTS_BINARY_CHILD if algo == "VROOM" else None
         sc = gen.base_scenario(r, seed, algo, parts=pool, n=r.choice([100, 128, 200, 300]), cap_mode="big", real_prob=0.3, ok_only=True)
+        if algo == "Zooming" and r.random() < 0.6:
+            # parameters under which cells are refined after a few pulls, multi-way splits, long runs: deep and bushy trees
+            sc["params"] = {"nu": gen.loguniform(r, 3, 40), "rho": r.uniform(0.8, 0.98)}
+            if r.random() < 0.5 and len(sc["domain"]) > 1:
+                sc["partition"] = {"cls": "DimensionBinaryPartition"}
+            sc["rounds"] = r.choice([200, 400, 800])
         return sc
 
 
@@ -483,7 +507,7 @@ class CheckC05(Check):
     def generate(self, r, seed, tier):
         algo = gen.weighted(r, [("T_HOO", 3), ("HCT", 3), ("VHCT", 3), ("POO", 1.5), ("GPO", 1)])
         n = gen.gen_budget(r, 100, 600 if tier == "thorough" else 300)
-        kinds = ["const", "int", "fewlevels", "gauss", "obj", "neg", "unit", "zero", "late", "altsign", "objneg"]
+        kinds = ["const", "int", "fewlevels", "gauss", "obj", "neg", "unit", "zero", "late", "altsign", "objneg", "edge"]
         sc = gen.base_scenario(r, seed, algo, n=n, ok_only=True, reward_kinds=kinds, sched_prob=0.2 if algo != "GPO" else 0.0,
                                mid_prob=0.4, neighbour_prob=0.25)
         if algo == "GPO" and derived(sc).get("gpo_L_zero"):
@@ -529,7 +553,7 @@ class CheckC08(Check):
     def generate(self, r, seed, tier):
         algo = r.choice(["SOO", "StoSOO", "DOO"])
         n = gen.gen_budget(r, 100, 400)
-        kinds = ["const", "int", "fewlevels", "gauss", "obj", "neg", "unit", "zero", "late", "altsign", "objneg"]
+        kinds = ["const", "int", "fewlevels", "gauss", "obj", "neg", "unit", "zero", "late", "altsign", "objneg", "edge"]
         return gen.base_scenario(r, seed, algo, n=n, reward_kinds=kinds, sched_prob=0.2, mid_prob=0.5, neighbour_prob=0.25)
 
 
@@ -552,7 +576,7 @@ class CheckC12(Check):
     def generate(self, r, seed, tier):
         n = r.choice([10, 12, 17, 30, 50, 100, 128, 200, 300, 600]) if r.random() < 0.3 else r.randint(10, 600)
         sc = gen.base_scenario(r, seed, "SequOOL", n=n, neighbour_prob=0.15, T=r.choice([n, n, n, max(1, n // 2), r.randint(1, n)]),
-                               reward_kinds=["const", "int", "fewlevels", "gauss", "obj", "neg", "unit", "zero", "late", "altsign"])
+                               reward_kinds=["const", "int", "fewlevels", "gauss", "obj", "neg", "unit", "zero", "late", "altsign", "edge"])
         if r.random() < 0.3:
             sc["schedule"] = [{"after": r.randint(max(1, sc["rounds"] - 20), sc["rounds"]), "times": 1} for _ in range(3)]
         return sc
@@ -580,7 +604,7 @@ class CheckC07(Check):
         algo = gen.weighted(r, [("DOO", 3), ("SOO", 3), ("SequOOL", 3), ("StoSOO", 3), ("StroquOOL", 3), ("POO", 2), ("GPO", 1.5),
                                 ("PCT", 1), ("VPCT", 1)])
         n = gen.gen_budget(r, 100, 400)
-        kinds = ["neg", "neg", "zero", "const", "int", "fewlevels", "late", "objneg", "obj", "gauss", "altsign"]
+        kinds = ["neg", "neg", "zero", "const", "int", "fewlevels", "late", "objneg", "obj", "gauss", "altsign", "edge"]
         sc = gen.base_scenario(r, seed, algo, n=n, reward_kinds=kinds, ok_only=True, cap_mode=r.choice(["big", "tight"]),
                                sched_prob=0.3 if algo in ("DOO", "SOO", "SequOOL", "StoSOO", "POO") else 0.0, mid_prob=0.4,
                                neighbour_prob=0.15)
@@ -590,6 +614,12 @@ class CheckC07(Check):
             sc["rounds"] = n if r.random() < 0.7 else sc["rounds"]
         if algo == "StroquOOL" and r.random() < 0.7:
             sc["rounds"] = r.randint(max(1, n // 25), max(2, n // 5))
+        if algo in ("DOO", "SOO", "SequOOL", "POO", "GPO", "PCT", "VPCT") and r.random() < 0.4:
+            # these ignore the time argument (C15), so any increasing labels are a legal way to drive them
+            sc["labels"] = r.choice([{"scheme": "zero"}, {"scheme": "offset", "offset": r.choice([17, 18, 4, 101])},
+                                     {"scheme": "gaps", "seed": seed, "start": r.randint(0, 3), "maxgap": 3}])
+            if r.random() < 0.6:
+                sc["rounds"] = n
         return sc
 
 
@@ -719,14 +749,18 @@ class CheckC11(Check):
             "refinement; distinct = (partition, K, d, reward kind, RNG policy, leaf-set hash)")
     assumptions = ["the refinement test may see the phase before or after the round's phase update; radius within 1e-9 of the threshold accepts both"]
     fault_kinds = CheckC01.fault_kinds
-    probe_names = ["c11-arm-on-shared-face", "c11-refinements-judged"]
+    probe_names = ["c11-arm-on-shared-face", "c11-refinements-judged", "c11-radius-meets-threshold-exactly"]
 
     def generate(self, r, seed, tier):
         pool = gen.PARTS_ALL + gen.PARTS_MIDPOINT * 2
         sc = gen.base_scenario(r, seed, "Zooming", parts=pool, n=gen.gen_budget(r, 100, 400), sched_prob=0.25, mid_prob=0.5,
                                neighbour_prob=0.3)
-        if r.random() < 0.5:
+        k = r.random()
+        if k < 0.4:
             sc["params"] = {"nu": gen.loguniform(r, 0.5, 20), "rho": r.uniform(0.5, 0.95)}
+        elif k < 0.65:
+            # dyadic parameters: the confidence radius meets nu*rho^depth exactly, not just approximately
+            sc["params"] = {"nu": r.choice([0.5, 1.0, 1.0, 2.0, 4.0]), "rho": r.choice([0.5, 0.5, 0.25, 0.75])}
         return sc
 
     def nontrivial(self, sc, res):
